@@ -16,7 +16,8 @@ pub type Src<T> = Arc<Source<T>>;
 pub const MAX_MSGS: usize = 96;
 
 pub const UNBOUNDED_LIMIT: u32 = 5_000;
-/// upper bound on the events of one scenario (the largest scenarios of the unchanged tree stay far below)
+/// upper bound on the events of one clock-engine scenario (interval scenarios of the unchanged tree have a few hundred
+/// events; the world and pipeline engines, whose legitimate histories can be long, do not use a cap)
 pub const HISTORY_CAP: usize = 300_000;
 pub const HISTORY_OVERFLOW_MSG: &str = "harness: history overflow";
 /// panic payload used to unwind out of a runaway scenario
@@ -170,6 +171,8 @@ pub struct Inner {
     pub skipped_by_guard: u64,
     pub harness_errors: Vec<String>,
     pub overflowed: bool,
+    /// events after which a scenario is cut short (unlimited unless an engine sets it)
+    pub history_cap: usize,
     pub tap_subs: Vec<u16>,
     /// probe drivers by id (for cross-subscription actions)
     pub drivers: Vec<Option<Arc<dyn SinkDriver>>>,
@@ -209,6 +212,7 @@ impl World {
                 skipped_by_guard: 0,
                 harness_errors: vec![],
                 overflowed: false,
+                history_cap: usize::MAX,
                 tap_subs: vec![0; 256],
                 drivers: vec![],
                 busy: vec![0; 8],
@@ -222,12 +226,13 @@ impl World {
     pub fn enter(&self, site: Site) -> usize {
         let mut g = self.lock();
         let idx = g.log.len();
-        if idx >= HISTORY_CAP {
+        if idx >= g.history_cap {
             // a scenario that does not stop producing events (never on the unchanged tree, whose scenarios are
             // bounded by construction): unwind out of it; the oracles judge what was recorded
             if !g.overflowed {
                 g.overflowed = true;
-                g.harness_errors.push(format!("history overflow: more than {HISTORY_CAP} events in one scenario"));
+                let cap = g.history_cap;
+                g.harness_errors.push(format!("history overflow: more than {cap} events in one scenario"));
             }
             drop(g);
             std::panic::panic_any(HistoryOverflow);
@@ -286,6 +291,9 @@ impl World {
             Message::Error(e) => M::Error(self.err_id(e)),
             Message::Terminate => M::Terminate,
         }
+    }
+    pub fn set_history_cap(&self, cap: usize) {
+        self.lock().history_cap = cap;
     }
     pub fn set_poke_hook(&self, h: Option<Arc<dyn Fn(u8) + Send + Sync>>) {
         *self.poke_hook.lock().unwrap_or_else(|e| e.into_inner()) = h;
